@@ -7,7 +7,7 @@ Proof. intros o v c [->|[-> ->]]; reflexivity. Qed.
 
 Lemma ctx_after : forall o d, host_supplies o d -> snd (ectx_of d) = Some o.
 Proof.
-  intros o d. induction d as [v c | d IH c' | d IH c' | d IH | d IH | d IH | d IH]; simpl; intro H.
+  intros o d. induction d as [v c | d IH c' | d IH c' | d IH | d IH | d IH | d IH | d IH l v]; simpl; intro H.
   - unfold init_context. rewrite (supplied_get_os o v c H). reflexivity.
   - destruct H as [_ H]. unfold init_context. rewrite (supplied_get_os _ _ _ H). reflexivity.
   - destruct H as [_ H]. unfold init_context. rewrite (supplied_get_os _ _ _ H). reflexivity.
@@ -15,7 +15,22 @@ Proof.
   - unfold init_context. rewrite (IH H). reflexivity.
   - exact (IH H).
   - exact (IH H).
+  - destruct l as [o'|]; simpl in *.
+    + subst o'. reflexivity.
+    + rewrite (IH H). reflexivity.
 Qed.
+
+(* Layering: the OS placed last on a context is the one it carries, whatever was there before. *)
+Lemma with_os_replaces : forall c o, with_os c o = Some o.
+Proof. reflexivity. Qed.
+
+Lemma layers_last_wins : forall ls o, ctx_of_layers (ls ++ [o]) = Some o.
+Proof. intros ls o. unfold ctx_of_layers. rewrite fold_left_app. reflexivity. Qed.
+
+(* A nested evaluation whose context the host layered with o is served by o: whatever the outer evaluation ran under
+   and whatever WithOS option the nested one got. *)
+Lemma nested_layer_wins : forall d o v, effective_os (Nest d (Some o) v) = o.
+Proof. reflexivity. Qed.
 
 (* Every execution context derived from a root for which the host supplied o serves builtins with o. *)
 Theorem propagates : forall o d, host_supplies o d -> effective_os d = o.
@@ -23,7 +38,8 @@ Proof. intros o d H. unfold effective_os. rewrite (ctx_after o d H). reflexivity
 
 (* The VM's own OS field is never changed by a derivation step (Clone copies it). *)
 Lemma vm_os_constant : forall d, fst (ectx_of d) =
-  (fix root d := match d with Top v _ => v | HostCall d _ | HostClone d _ | Spawn d | CloneSync d | Import d | CallFn d => root d end) d.
+  (fix root d := match d with Top v _ => v | Nest _ _ v => v
+                 | HostCall d _ | HostClone d _ | Spawn d | CloneSync d | Import d | CallFn d => root d end) d.
 Proof. induction d; simpl; auto. Qed.
 
 (* Script-level steps never change the OS: only the host can, by passing a different context. *)
